@@ -638,3 +638,22 @@ package gtab
 //@   loop 1
 //@     invariant p <= i && i <= a && 0 <= p && ref(seq) == ref(ctx.seq) && off(seq) == off(ctx.seq) && len(seq) == len(ctx.seq) && len(ctx.seq) == old(len(ctx.seq))
 //@     decreases a - i
+
+// Cursive attachment (GPOS lookup type 3): only the covered glyph changes.
+//@ func (l *Gpos3_1) apply(ctx *Context, a int, b int) (next int)   props: C06 C07
+//@   requires l != nil && ctx != nil && 0 <= a && a < b && b <= len(ctx.seq) && stackinv(ctx) && keepOK(ctx) && llOK(ctx)
+//@   requires forall g uint16 :: has(l.Cov, g) ==> 0 <= l.Cov[g] && l.Cov[g] < len(l.Records)
+//@   ensures (next == -1 || next == a + 1) && stackinv(ctx) && len(ctx.seq) == old(len(ctx.seq)) && len(ctx.stack) == old(len(ctx.stack))
+//@   ensures (next == -1) == !has(l.Cov, old(ctx.seq[a].GID))
+//@   ensures forall i int :: 0 <= i && i < len(ctx.seq) ==> ctx.seq[i].GID == old(ctx.seq[i].GID) && ctx.seq[i].XOffset == old(ctx.seq[i].XOffset)
+//@   ensures forall i int :: 0 <= i && i < len(ctx.seq) && i != a ==> ctx.seq[i].YOffset == old(ctx.seq[i].YOffset) && ctx.seq[i].Advance == old(ctx.seq[i].Advance)
+//@   modifies ctx.seq[*]
+
+// Mark-to-ligature attachment (GPOS lookup type 5) is read by the library but
+// neither applied nor written: apply reports "no match", encode and encodeLen
+// panic "not implemented".
+//@ func (l *Gpos5_1) apply(ctx *Context, a int, b int) (next int)   props: C07
+//@   ensures next == -1
+//@   modifies nothing
+//@ func (l *Gpos5_1) encode() (res []byte)   props: C08
+//@   modifies nothing
